@@ -99,11 +99,12 @@ pub fn decode_cfg(r: &mut Rd) -> Cfg {
 }
 
 pub fn decode_op(r: &mut Rd) -> Op {
-    let clock = |r: &mut Rd| match r.u8() % 5 {
+    let clock = |r: &mut Rd| match r.u8() % 6 {
         0 => Clock::Secs(1 + r.u16() % 2000),
         1 => Clock::Secs(1 + (r.u8() % 3) as u16),
         2 => Clock::Epoch((r.u8() % 4) as i8 - 1),
         3 => Clock::Unbond((r.u8() % 3) as i8 - 1),
+        4 => Clock::UnbondYoungest((r.u8() % 3) as i8 - 1),
         _ => Clock::Long,
     };
     match r.u8() % 32 {
